@@ -141,7 +141,34 @@ var _ msgdispatcher.Client = (*Client)(nil)
 
 type fakeStream struct{ msgstream.MsgStream }
 
+// FailConnect makes the next n connection checks (AsConsumer of a stream of the factory) on the given physical channel fail.
+// Process-wide like the factory; cases run one at a time and clear it with ResetFailConnect.
+func FailConnect(pchannel string, n int) {
+	failMu.Lock()
+	defer failMu.Unlock()
+	failConnect[pchannel] = n
+}
+
+func ResetFailConnect() {
+	failMu.Lock()
+	defer failMu.Unlock()
+	failConnect = map[string]int{}
+}
+
+var (
+	failMu      sync.Mutex
+	failConnect = map[string]int{}
+)
+
 func (fakeStream) AsConsumer(ctx context.Context, channels []string, subName string, position common.SubscriptionInitialPosition) error {
+	failMu.Lock()
+	defer failMu.Unlock()
+	for _, c := range channels {
+		if failConnect[c] > 0 {
+			failConnect[c]--
+			return fmt.Errorf("injected: cannot connect to the message queue (channel %s)", c)
+		}
+	}
 	return nil
 }
 
